@@ -7,7 +7,7 @@ from props.common import BASE_TRUSTED
 PROP_FILES = ["Properties_C13"]
 TRUSTED = BASE_TRUSTED + [
     "modelled: handle_operations (both passes), heapify, reheap with Compare=std::less<long long>; the batch is the op_list the aggregator hands over",
-    "modelled, not verified: the aggregator's pending-stack CAS / handler election (real-thread oracle runs only), element copy/move exceptions (fault runs)",
+    "modelled: element copy (push) and assignment (pop) failures as per-operation flags; modelled, not verified: the aggregator's pending-stack CAS / handler election",
 ]
 
 
@@ -155,9 +155,126 @@ def run(ctx):
     ctx.rules.append("cpq-api: the same through push/try_pop (one op per batch)")
     diff_tie(ctx, "cpq-api", exe, ["api"], "cpq", gen_cases(ctx, True)[:ctx.scale(500, 10000)], oracle=oracle, describe=describe, nontrivial=nt,
              bucket=lambda c: "api")
+    run_faults(ctx, exe)
+
+
+def fdescribe(c):
+    names = {1: "push(%d)", 2: "try_pop", 3: "push(%d)[copy throws]", 4: "try_pop[assignment throws]"}
+    out, cur = [], []
+    for i in range(0, len(c) - 1, 2):
+        if c[i] == 9:
+            out.append(" ".join(cur)); cur = []
+        else:
+            cur.append(names[c[i]] % c[i + 1] if "%d" in names[c[i]] else names[c[i]])
+    if cur:
+        out.append(" ".join(cur))
+    return " | ".join(out)
+
+
+def fault_oracle(c, toks, api=False):
+    """Property text: the exception reaches the caller of that operation only; the others are unaffected (answered, queue usable)."""
+    if toks and toks[-1] == "HANG":
+        return ("cpq-pop-assign-throws", "%s: an operation never returns after an element assignment threw (handler left busy)" % fdescribe(c))
+    if "ESCAPED" in toks:
+        return ("cpq-pop-assign-throws", "%s: the exception escaped handle_operations on the handler thread; batched operations were left unanswered" % fdescribe(c))
+    if toks and toks[0].startswith("CRASH"):
+        return ("cpq-fault-crash", fdescribe(c))
+    v = [int(t) for t in toks if t.lstrip("-").isdigit()]
+    ops = [c[i] for i in range(0, len(c) - 1, 2)]
+    pos = 0
+    k = 0
+    for op in ops:
+        if op == 9:
+            if pos < len(v) and not api:        # state dump after every batch: size mark data[size] -7
+                pos += 2 + v[pos] + 1
+            continue
+        if pos + 1 >= len(v):
+            return ("cpq-fault-bad-output", fdescribe(c))
+        st = v[pos]
+        pos += 2
+        if st == 0:
+            return ("cpq-pop-assign-throws", "%s: an operation of the batch was never answered" % fdescribe(c))
+        if op in (1, 2) and st == 3:   # (a push whose copy throws legitimately reports an exception to its own caller)
+            return ("cpq-exception-to-wrong-op", "%s: an operation that did not throw received an exception" % fdescribe(c))
+    return None
+
+
+def gen_fault_cases(ctx, api):
+    rng = ctx.rng
+    cases = []
+    for _ in range(ctx.scale(600, 20000)):
+        c = []
+        for _ in range(rng.randint(1, 5)):
+            for _ in range(1 if api else rng.choice([1, 2, 3, 5, 8])):
+                r = rng.random()
+                if r < 0.45:
+                    c += [1, rng.randint(-9, 40)]
+                elif r < 0.55:
+                    c += [3, rng.randint(-9, 40)]
+                elif r < 0.85:
+                    c += [2, 0]
+                else:
+                    c += [4, 0]
+                if api:
+                    c += [9, 9]
+            if not api:
+                c += [9, 9]
+        cases.append(c)
+    return cases
+
+
+def run_faults(ctx, exe):
+    ctx.rules.append("cpq-fault: batches where chosen pushes carry a value whose copy throws and chosen pops a destination whose assignment throws, handed to the real handle_operations "
+                     "and through push/try_pop; compared with the fault-aware model (status per op incl. 'exception to this caller', data array); oracle = nobody else gets the exception, every op is answered, no hang")
+    diff_tie(ctx, "cpq-faultbatch", exe, ["faultbatch"], "cpqf", gen_fault_cases(ctx, False), oracle=fault_oracle, describe=fdescribe,
+             nontrivial=lambda c, t: any(c[i] in (3, 4) for i in range(0, len(c), 2)), bucket=lambda c: "faultbatch")
+    api = gen_fault_cases(ctx, True)[:ctx.scale(300, 6000)]
+    rc, lines, err = ctx.run_driver(exe, ["faultapi"], api, timeout=600)
+    while len(lines) < len(api):
+        if not lines or not lines[-1].endswith("HANG"):
+            lines.append("CRASH rc=%s" % rc)
+        if len(lines) < len(api):
+            rc, more, err = ctx.run_driver(exe, ["faultapi"], api[len(lines):], timeout=600)
+            lines += more
+        if sum(1 for l in lines if l.endswith("HANG")) >= 3:
+            break
+    model = ctx.modelrun("cpqf", api[:len(lines)])
+    bad = 0
+    for c, ln, mo in zip(api, lines, model):
+        ctx.count(("faultapi", tuple(c)), any(x in (3, 4) for x in c[0::2]), "faultapi")
+        toks = ln.split()
+        v = fault_oracle(c, toks, api=True)
+        if v:
+            bad += 1
+            if bad <= 2:
+                ctx.add(Finding("violation", v[0], "cpq-faultapi: " + v[1], {"tie": "cpq-faultapi", "case": c, "impl": ln[:500]}))
+            continue
+        # per-op comparison with the model: statuses and popped values (the model prints a state dump per batch; take the op pairs)
+        mi, want = 0, []
+        for i in range(0, len(c) - 1, 2):
+            if c[i] == 9:
+                mi += 2 + mo[mi] + 1
+            else:
+                st, val = mo[mi:mi + 2]
+                if c[i] == 3 and st == 2:
+                    st = 3          # through the API a failed push surfaces as an exception (bad_alloc) in the pushing caller
+                want += [st, val]; mi += 2
+        got = [int(x) for x in toks[:len(want)]]
+        if got != want:
+            bad += 1
+            if bad <= 2:
+                ctx.add(Finding("broken", "broken:tie:cpq-faultapi", "cpq-faultapi: %s: implementation %s model %s" % (fdescribe(c), got, want), {"tie": "cpq-faultapi", "case": c}))
+        else:
+            ctx.traces_validated += 1
+    ctx.ties.append({"name": "cpq-faultapi", "cases": len(lines), "disagreements": bad})
 
 
 def replay(ctx, rep):
+    if rep.get("tie", "").startswith("cpq-fault"):
+        lib, err = ctx.build_lib("tbb")
+        exe, err = ctx.build_driver("drv_cpq", libs=[lib])
+        diff_tie(ctx, rep["tie"], exe, ["faultbatch" if rep["tie"] == "cpq-faultbatch" else "faultapi"], "cpqf", [rep["case"]], oracle=fault_oracle, describe=fdescribe)
+        return
     lib, err = ctx.build_lib("tbb")
     exe, err = ctx.build_driver("drv_cpq", libs=[lib])
     mode = "api" if rep.get("tie") == "cpq-api" else "batch"
